@@ -109,9 +109,11 @@ func replayCompactCalls(dst string, pageSize int, lines []string) (err error) {
 	return nil
 }
 
-// shapeOf: everything about a compacted file that does not depend on the order in which one
-// commit hands out page ids (Go map iteration): content, txid, high-water mark, file size,
-// free-page count and the page/byte statistics of every top-level bucket (nested ones included).
+// shapeOf: what does not depend on the order in which one commit hands out page ids (Go map
+// iteration over dirty buckets and nodes): content, txid and the page/byte statistics of every
+// top-level bucket (nested ones included).  The high-water mark, the file size and the number of
+// free pages DO depend on that order (a span of n free pages is or is not available depending on
+// which node asked first) and are not compared.
 func shapeOf(path string) string {
 	db, err := bolt.Open(path, 0o600, &bolt.Options{ReadOnly: true, PreLoadFreelist: true, Timeout: time.Second})
 	if err != nil {
@@ -119,11 +121,9 @@ func shapeOf(path string) string {
 	}
 	defer db.Close()
 	var sb strings.Builder
-	txid, _, _, _, pgid := db.VerifMeta()
-	fi, _ := os.Stat(path)
-	fmt.Fprintf(&sb, "dump=%s txid=%d hwm=%d size=%d", hashStr(dumpDB(db)), txid, pgid, fi.Size())
+	txid, _, _, _, _ := db.VerifMeta()
+	fmt.Fprintf(&sb, "dump=%s txid=%d", hashStr(dumpDB(db)), txid)
 	_ = db.View(func(tx *bolt.Tx) error {
-		fmt.Fprintf(&sb, " free=%d", tx.DB().Stats().FreePageN)
 		return tx.ForEach(func(name []byte, b *bolt.Bucket) error {
 			fmt.Fprintf(&sb, " %s=%+v", hx(string(name)), b.Stats())
 			return nil
